@@ -567,8 +567,8 @@ def table : LexTable :=
    ("closepar", .one (.re "\\)")),
    ("openbracket", .one (.re "\\[")),
    ("closebracket", .one (.re "\\]")),
-   ("True", .one (.re "True")),
-   ("False", .one (.re "False")),
+   ("True", .one (.re "True\\b")),
+   ("False", .one (.re "False\\b")),
    ("identifier", .one (.re "[@$a-z_A-Z_][@$a-zA-Z_0-9]*")),
    ("whitespace", .one (.re "[ \n\t]*")),
    ("comma", .one (.re ",")),
